@@ -339,6 +339,14 @@ def check(case, obs):
         outs = run(d, [chans[c]], [list(mef_values[c])] if not isinstance(mef_values, np.ndarray) else mef_values[c:c + 1])
         oks = not raised(outs) and _same_curve(outs.fitting['beads_params'][0], out.fitting['beads_params'][c])
         obs.claim('channel_count', oks, lambda: 'calibrating %s alone gives another curve than together with the others' % chans[c])
+    # ---- channels given by position instead of by name (same data, same seed): the same calibration
+    if case['np_seed'] % 3 == 0:
+        pos = [2 + c for c in range(nch)]
+        outq = run(d, pos, mef_values, cc=[2 + i for i in case['clustering']])
+        okq = not raised(outq) and all(np.array_equal(np.asarray(a), np.asarray(b))
+                                       for a, b in zip(outq.fitting['beads_params'], out.fitting['beads_params']))
+        obs.claim('spelling', okq, lambda: 'calibrating positions %r instead of names %r gives another result: %r' % (
+            pos, list(chans), outq if raised(outq) else [list(p_) for p_ in outq.fitting['beads_params']]))
     # ---- the curves returned first still compute what they computed (later calibrations share nothing with them)
     obs.claim('stable', all(np.array_equal(np.asarray(out.fitting['std_crv'][c](Xd[:, 2 + c])), t_first[c]) for c in range(nch)),
               'standard curves returned by the first calibration changed after later calibrations')
